@@ -282,29 +282,14 @@ impl<'a, T: Transport> Transferrer<'a, T> {
             // each other's content on alternate runs). It is replaced through a working file. With
             // -H the names of a group that is still one are brought back onto one inode after the
             // transfers (`relink_hard_link_groups`).
-            #[cfg(unix)]
+            if let Some(result) = self
+                .replace_multiply_linked(&source.path, dest_path)
+                .await?
             {
-                use std::os::unix::fs::MetadataExt;
-                // (a destination of 10 MB or more is rebuilt through a working file by the delta
-                // path anyway)
-                const IN_PLACE_BELOW: u64 = 10 * 1024 * 1024;
-                if matches!(std::fs::symlink_metadata(dest_path), Ok(ref m) if m.is_file() && m.nlink() > 1 && m.len() < IN_PLACE_BELOW)
-                {
-                    let working = crate::temp_file::temp_path_for(dest_path);
-                    let _ = std::fs::remove_file(&working);
-                    let result = match self.transport.copy_file(&source.path, &working).await {
-                        Ok(result) => result,
-                        Err(e) => {
-                            let _ = std::fs::remove_file(&working);
-                            return Err(e);
-                        }
-                    };
-                    std::fs::rename(&working, dest_path)?;
-                    self.write_xattrs(source, dest_path).await?;
-                    self.write_acls(source, dest_path).await?;
-                    self.write_bsd_flags(source, dest_path).await?;
-                    return Ok(Some(result));
-                }
+                self.write_xattrs(source, dest_path).await?;
+                self.write_acls(source, dest_path).await?;
+                self.write_bsd_flags(source, dest_path).await?;
+                return Ok(Some(result));
             }
 
             // Use delta sync for updates
@@ -331,6 +316,44 @@ impl<'a, T: Transport> Transferrer<'a, T> {
         } else {
             Ok(None)
         }
+    }
+
+    /// A destination file that has further hard links and is below the delta gate is replaced by a
+    /// copy of `source_path` made beside it (working file, then rename); `None` when `dest_path` is
+    /// not such a file. (A destination of 10 MB or more is rebuilt through a working file by the
+    /// delta path anyway.)
+    #[cfg(unix)]
+    async fn replace_multiply_linked(
+        &self,
+        source_path: &Path,
+        dest_path: &Path,
+    ) -> Result<Option<TransferResult>> {
+        use std::os::unix::fs::MetadataExt;
+        const IN_PLACE_BELOW: u64 = 10 * 1024 * 1024;
+        if !matches!(std::fs::symlink_metadata(dest_path), Ok(ref m) if m.is_file() && m.nlink() > 1 && m.len() < IN_PLACE_BELOW)
+        {
+            return Ok(None);
+        }
+        let working = crate::temp_file::temp_path_for(dest_path);
+        let _ = std::fs::remove_file(&working);
+        let result = match self.transport.copy_file(source_path, &working).await {
+            Ok(result) => result,
+            Err(e) => {
+                let _ = std::fs::remove_file(&working);
+                return Err(e);
+            }
+        };
+        std::fs::rename(&working, dest_path)?;
+        Ok(Some(result))
+    }
+
+    #[cfg(not(unix))]
+    async fn replace_multiply_linked(
+        &self,
+        _source_path: &Path,
+        _dest_path: &Path,
+    ) -> Result<Option<TransferResult>> {
+        Ok(None)
     }
 
     /// Delete a file or directory
@@ -688,9 +711,16 @@ impl<'a, T: Transport> Transferrer<'a, T> {
                             Ok(ref m) if m.is_file()
                         );
                         let result = if existing_file {
-                            self.transport
-                                .sync_file_with_delta(target, dest_path)
-                                .await?
+                            // (and one that has further hard links is replaced, not written
+                            // through: its other names are other files)
+                            match self.replace_multiply_linked(target, dest_path).await? {
+                                Some(result) => result,
+                                None => {
+                                    self.transport
+                                        .sync_file_with_delta(target, dest_path)
+                                        .await?
+                                }
+                            }
                         } else {
                             self.copy_file(target, dest_path).await?
                         };
